@@ -85,7 +85,8 @@ def file_reader(filename: str) -> CrystalMap:
         structure = Structure(title=name, lattice=Lattice(*abcABG))
         phases["structures"].append(structure)
 
-    file_data = np.loadtxt(filename, skiprows=data_starting_row)
+    # 2D also when the file has a single data line
+    file_data = np.loadtxt(filename, skiprows=data_starting_row, ndmin=2)
 
     # Data needed to create a crystal map
     data_dict = {
